@@ -87,7 +87,7 @@ def finish(res, checker_cmd):
     for n in res.notes:
         print('note: ' + n)
     for key in sorted(listed):
-        print('KNOWN-FINDING: property=%s %s [%s]' % (res.pid, kn[key], key))
+        print('KNOWN-FINDING: property=%s %s [%s]' % (res.pid, listed[key][0]['text'], key))
     stale = [k for k in kn if k not in listed]
     for k in stale:
         print('note: known finding %s is listed but was not observed on this tree' % k)
